@@ -35,6 +35,7 @@ var genFiles = []genFile{
 	{Name: "ChainTypes", Structs: true},
 	{Name: "ChainTime", Imports: []string{"ChainTypes"}},
 	{Name: "ChainProofs", Imports: []string{"ChainTypes", "Command"}},
+	{Name: "PolicyMatch", Prelude: policyMatchPrelude},
 	{Name: "ChainAllowed", Imports: []string{"ChainTypes", "ChainTime", "ChainProofs"}, Prelude: chainAllowedPrelude},
 }
 
@@ -43,6 +44,8 @@ var targets = []target{
 	{Dir: "pkg/command", Name: "Parse", Lean: "Command_Parse", File: "Command", Uses: []string{"lower"}},
 	{Dir: "pkg/command", Recv: "Command", Name: "Covers", Lean: "Command_Covers", File: "Command"},
 	{Dir: "pkg/command", Recv: "Command", Name: "Join", Lean: "Command_Join", File: "Command"},
+	{Dir: "pkg/policy", Recv: "Policy", Name: "Match", Lean: "Policy_Match", File: "PolicyMatch", Uses: []string{"ext_matchStatement"}},
+	{Dir: "pkg/policy", Recv: "Policy", Name: "PartialMatch", Lean: "Policy_PartialMatch", File: "PolicyMatch", Uses: []string{"ext_matchStatement"}},
 	{Dir: "pkg/policy", Name: "parseGlob", Lean: "parseGlob", File: "Glob", Fuel: []string{"pattern.length + 1"}},
 	{Dir: "pkg/policy", Recv: "glob", Name: "Match", Lean: "glob_Match", File: "Glob",
 		Fuel: []string{"(str.length + 1) * (pattern.length + 2) + 1", "pattern.length + 1"}},
@@ -96,6 +99,9 @@ var typeTable = map[string]string{
 	"command.Command": "Bytes",
 	// opaque to the translated functions: only handed on to externs
 	"delegation.Loader": "L",
+	"datamodel.Node":    "N",
+	"policy.Statement":  "(Option S)", // an interface value; nil = "no statement to report"
+	"policy.Policy":     "(List (Option S))",
 	"*args.Args":        "A",
 }
 
@@ -191,6 +197,29 @@ var externMethods = map[string]libCall{
 	"invocation.Token.loadProofs": {"(ext_loadProofs $r $1)", ty{"(List (DlgTok D))", "[]delegation.Token"}, []string{"ext_loadProofs"}},
 	"invocation.Token.verifyArgs": {"(ext_verifyArgs $r $1 $2)", ty{"Unit", "unit"}, []string{"ext_verifyArgs"}},
 }
+
+// externFuncs: functions (not methods) of the library that are parameters of the generated code, keyed by "<dir>.<name>".
+// matchStatement is the statement evaluator (tied by the `policy` stream); it returns the result code and the statement to report.
+var externFuncs = map[string]libCall{
+	"pkg/policy.matchStatement": {"(ext_matchStatement $1 $2)", ty{"(Int × (Option S))", "pair"}, []string{"ext_matchStatement"}},
+}
+
+// useTypes: Lean types of the parameters (section variables) that targets may mention
+var useTypes = map[string]string{
+	"lower":              "Bytes → Bytes",
+	"now":                "Int",
+	"ext_loadProofs":     "InvTok D C → L → GoM (List (DlgTok D))",
+	"ext_verifyArgs":     "InvTok D C → List (DlgTok D) → A → GoM Unit",
+	"ext_matchStatement": "Option S → N → (Int × (Option S))",
+}
+
+// pairTypes: component types of the pair types externs return
+var pairTypes = map[string][2]ty{
+	"(Int × (Option S))": {intTy, ty{"(Option S)", "policy.Statement"}},
+}
+
+const policyMatchPrelude = `variable {S N : Type} (ext_matchStatement : Option S → N → (Int × (Option S)))
+`
 
 const chainAllowedPrelude = `variable {L A : Type} (now : Int) (ext_loadProofs : InvTok D C → L → GoM (List (DlgTok D)))
   (ext_verifyArgs : InvTok D C → List (DlgTok D) → A → GoM Unit)
